@@ -1170,6 +1170,8 @@ class Key(object):
                 else:
                     self.compressed = False
                 key_byte = key[1:]
+                if len(key_byte) != 32:
+                    raise BKeyError("Invalid WIF key, private key must be 32 bytes not %d" % len(key_byte))
                 key_hex = key_byte.hex()
             else:
                 raise BKeyError("Unknown key format %s" % self.key_format)
